@@ -472,6 +472,13 @@ let gen_render r ~tier oc =
       "{% set q = pmix %}{{ q.Name }}", "mixed p"; "{{ [pmix][0].Title }}", "title"; "{{ pmix.Name|upper }}", "MIXED P";
       "{% if pmix.Title %}y{% endif %}", "y"; "{{ mis[1] }}{{ msi.a }}{{ ss[0] }}{{ arr[2] }}", "a1a3";
       "{{ nmss.a }}{{ nmss['b'] }}{{ nmss.zz }}|{{ nmsa.a }}|{{ nmis[1] }}{{ nmis[9] }}|{{ nmst.T.a }}{{ nmst.N[0] }}", "xy|1|one|t7" ];
+  (* template names of every shape, through every tag that takes one (they reach the file-system and chain loaders) *)
+  List.iter (fun name ->
+    List.iter (fun tpl -> emit_render oc "names" (Str_compat.replace_all tpl "$" name))
+      [ "{% include '$' %}"; "{% include '$' ignore missing %}x"; "{% extends '$' %}"; "{% import '$' as q %}"; "{% from '$' import m %}"; "{% include ['$'] ignore missing %}";
+        "{% set nm = '$' %}{% include nm ignore missing %}{% include nm ~ '.twig' ignore missing %}" ])
+    [ "@widgets"; "@"; "@/"; "@a/b"; "@@"; "../x"; "../../etc/passwd"; "/etc/passwd"; ""; " "; "."; ".."; "a//b"; "a/./b"; "sub/real.twig"; "sub/../sub/real.twig"; "./real.twig";
+      "real"; "real.twig.twig"; "C:\\x"; "a\\b"; "%00"; "a b"; "h\xc3\xa9"; String.make 300 'n'; "#"; "?x=1"; "a:b"; "~"; "-"; "*" ];
   List.iter (fun tpl -> emit_render oc "special" tpl)
     [ "{% macro m() %}{% block b %}x{% endblock %}{% endmacro %}{{ m() }}"; "{% macro m(a) %}<{% block b %}{{ a }}{% endblock %}>{% endmacro %}{{ _self.m(1) }}{{ m(2) }}";
       "{% macro m() %}{% if true %}{% for i in [1] %}{% block b %}x{% endblock %}{% endfor %}{% endif %}{% endmacro %}{% block b %}outer{% endblock %}{{ m() }}";
